@@ -36,7 +36,9 @@ pub fn matrix_strategy(maxdim: usize) -> BoxedStrategy<Mat> {
 
 /// large sparse matrices: three- and four-digit indices, weights of two digits
 fn large_strategy(_t: Tier) -> BoxedStrategy<Mat> {
-    (prop_oneof![40 => 90usize..=130, 20 => 990usize..=1100, 20 => 1usize..=20, 1 => 65_537usize..=66_000], prop_oneof![40 => 90usize..=130, 20 => 990usize..=1100, 20 => 1usize..=20], 0usize..=300)
+    // `round`: exact multiples of the usual batch, lane and buffer widths and their neighbours
+    let round = || prop_oneof![Just(64usize), Just(128), Just(192), Just(255), Just(256), Just(257), Just(512), Just(768), Just(1024), Just(2048), Just(4096)];
+    (prop_oneof![40 => 90usize..=130, 20 => 990usize..=1100, 20 => 1usize..=20, 15 => round(), 1 => prop_oneof![1 => Just(65_536usize), 3 => 65_537usize..=66_000]], prop_oneof![40 => 90usize..=130, 20 => 990usize..=1100, 20 => 1usize..=20, 15 => round()], 0usize..=300)
         .prop_map(|(a, b, cnt)| if a > 60_000 { if cnt % 2 == 0 { (a, b.min(3), cnt.min(40)) } else { (b.min(3), a, cnt.min(40)) } } else { (a, b, cnt) })
         .prop_flat_map(|(rows, cols, cnt)| {
             // a few heavy lines so that weights reach two digits
@@ -471,7 +473,7 @@ pub fn property() -> Property {
             }),
             Box::new(Sub {
                 name: "roundtrip-large",
-                rule: "large sparse matrices (dimensions 90..=130 or 990..=1100, occasionally 1..=20, one case in 80 with more than 65 536 rows or columns against at most 3 of the other kind, up to 300 random ones plus up to two rows/columns of weight 9..=14 or 33..=80, insertion order random): indices of three and four digits, weights of two digits; same round-trip/format oracle",
+                rule: "large sparse matrices (dimensions 90..=130 or 990..=1100, occasionally 1..=20, one dimension in six a round size from {64, 128, 192, 255, 256, 257, 512, 768, 1024, 2048, 4096}, one case in 95 with 65 536 or more rows or columns against at most 3 of the other kind, up to 300 random ones plus up to two rows/columns of weight 9..=14 or 33..=80, insertion order random): indices of three and four digits, weights of two digits; same round-trip/format oracle",
                 cases: |t| t.pick(20_000, 600_000),
                 strategy: large_strategy,
                 check: check_roundtrip,
